@@ -337,7 +337,12 @@ class FakeSnowflakeCursor:
                     self._conn.schema = None
                     self._conn.schema_set = False
 
-                elif cmd == "DROP SCHEMA" and ident == self._conn.schema:
+                elif (
+                    cmd == "DROP SCHEMA"
+                    and ident == self._conn.schema
+                    # a schema of the same name in another database isn't the current schema
+                    and (transformed.this.catalog or self._conn.database) == self._conn.database
+                ):
                     self._conn.schema = None
                     self._conn.schema_set = False
 
